@@ -33,6 +33,14 @@ Fixpoint all2 {X Y : Type} (f : X -> Y -> bool) (a : list X) (b : list Y) : bool
   | x :: a', y :: b' => f x y && all2 f a' b'
   | _, _ => false
   end.
+(* the dumps and the select results are compared in id order (the model keeps insertion order; with explicit ids they differ) *)
+Fixpoint ins_by {X : Type} (key : X -> Z) (x : X) (l : list X) : list X :=
+  match l with
+  | [] => [x]
+  | y :: r => if key x <? key y then x :: l else y :: ins_by key x r
+  end.
+Definition sort_by {X : Type} (key : X -> Z) (l : list X) : list X := fold_right (ins_by key) [] l.
+
 Definition oz_eqb := option_eqb Z.eqb.
 Definition row_eqb (a b : row) : bool :=
   (rid a =? rid b) && oz_eqb (rv a) (rv b) && option_eqb cls_eqb (rtag a) (rtag b).
@@ -63,12 +71,12 @@ Definition res_eqb (m : res) (o : ores) : bool :=
                          | [] => false
                          | m0 :: _ => seen_eqb (chain (ocls m0)) l l'
                          end
-  | RObjs l n f, OObjs l' n' f' => all2 obj_head_eqb l l' && (n =? n') && list_eqb cls_eqb f f'
+  | RObjs l n f, OObjs l' n' f' => all2 obj_head_eqb (sort_by oid l) l' && (n =? n') && list_eqb cls_eqb f f'
   | _, _ => false
   end.
 
 Definition tabs_eqb (s : st) (t : list (list row)) : bool :=
-  list_eqb (list_eqb row_eqb) [tA s; tB s; tC s; tB2 s] t.
+  list_eqb (list_eqb row_eqb) (map (sort_by rid) [tA s; tB s; tC s; tB2 s]) t.
 
 Fixpoint steps_agree (tr : list (st * res)) (os : list ostep) : bool :=
   match tr, os with
